@@ -274,8 +274,9 @@ def history(case, ctx, rng, tmp):
             key = keys[int(rng.integers(0, len(keys)))]
             path = os.path.join(tmp, "f0.pt")
             had = open(path, "rb").read() if os.path.exists(path) else None
-            ok = ctx.must_raise(f"save(metadata with reserved key {key})", ValueError, st.save, path, {key: 1, "x": 2},
-                                tags=dict(tags, key=key))
+            val = [1, None, 0, {}, "", 2.5][int(rng.integers(0, 6))]  # a reserved NAME is refused whatever it maps to
+            ok = ctx.must_raise(f"save(metadata with reserved key {key}={val!r})", ValueError, st.save, path, {key: val, "x": 2},
+                                tags=dict(tags, key=key, falsy=not val))
             if ok:
                 ctx.count("reserved_key_rejections")
             now = open(path, "rb").read() if os.path.exists(path) else None
